@@ -23,15 +23,26 @@ class Pkg:
         self.name, self.path = name, path     # package name, import path below the module
         self.files = []                       # [(fname, [(path, alias)], [var idx], n_inits)]
         self.nvars = 0
+        self.kind = "stateful"                # stateful | facade | blankvar | initonly
+        self.blank = set()                    # variables declared as `var _ = ...`
         self.vdeps = {}                       # var -> (intra [var], cross [(pkgname, var)], via_func bool)
         self.std_use = {}                     # std path -> file index using it (non-blank)
         self.imports = []                     # go/types order: list of import paths (module-relative for user pkgs)
 
 
 def gen_program(seed, mode, npk=None):
-    """mode: plain | sync | skipstd | reflect | fmt | wide
-    returns (files {relpath: src}, facts)"""
+    """mode: plain | sync | skipstd | reflect | fmt | wide | facade
+    returns (files {relpath: src}, facts)
+
+    Package kinds: stateful (variables and init functions), facade (functions, a type
+    and a constant only: nothing to initialise except the packages it imports),
+    blankvar (its only work is `var _ = f(..)`), initonly (no variables, several files,
+    one init function in one of them).  Mode facade fixes the shape
+    main -> facade -> facade -> {stateful, stateful}, plus a blankvar and an initonly
+    package: the stateful packages are reachable only through the facades."""
     rng = random.Random(seed)
+    if mode == "facade":
+        npk = 7
     if npk is None:
         npk = rng.randint(2, 8)
     nuser = npk - 1
@@ -50,6 +61,17 @@ def gen_program(seed, mode, npk=None):
         sel = [q for q in cand if rng.random() < prob]
         rng.shuffle(sel)
         imps[p.name] = sel
+    for q in pkgs:
+        q.kind = rng.choices(["stateful", "facade", "blankvar", "initonly"], weights=[60, 20, 10, 10])[0]
+    if mode == "facade":
+        s1, s2, f2, f1, bv, io = pkgs
+        for q, k in zip(pkgs, ["stateful", "stateful", "facade", "facade", "blankvar", "initonly"]):
+            q.kind = k
+        top = [f1, bv, io]
+        rng.shuffle(top)
+        low = [s1, s2]
+        rng.shuffle(low)
+        imps = {s1.name: [], s2.name: [], f2.name: low, f1.name: [f2], bv.name: [], io.name: [], "main": top}
     imported = {q.name for l in imps.values() for q in l}
     for q in pkgs:                       # everything is part of the program
         if q.name not in imported:
@@ -68,9 +90,11 @@ def gen_program(seed, mode, npk=None):
         std_for[users[0].name].append(("fmt", False))
         std_for[users[-1].name].append(("sync", False))
     for p in order:
-        nfiles = rng.choice([1, 1, 2, 3])
+        nfiles = rng.choice([1, 1, 2, 3]) if p.kind != "initonly" else rng.choice([2, 3])
         fnames = sorted(rng.sample(FILES, nfiles))
-        p.nvars = rng.randint(1, 4)
+        p.nvars = {"stateful": rng.randint(1, 4), "facade": 0, "blankvar": rng.randint(1, 2), "initonly": 0}[p.kind]
+        p.blank = {v for v in range(p.nvars) if p.kind == "blankvar" or rng.random() < 0.15}
+        p.pub = [v for v in range(p.nvars) if v not in p.blank]
         # variables to files, in declaration order
         cuts = sorted(rng.randint(0, p.nvars) for _ in range(nfiles - 1))
         bounds = [0] + cuts + [p.nvars]
@@ -86,12 +110,14 @@ def gen_program(seed, mode, npk=None):
         for fi in range(nfiles):
             rng.shuffle(per_file_imps[fi])
             vs = list(range(bounds[fi], bounds[fi + 1]))
-            p.files.append([fnames[fi], per_file_imps[fi], vs, rng.choice([0, 1, 1, 2, 3])])
+            p.files.append([fnames[fi], per_file_imps[fi], vs, rng.choice([0, 1, 1, 2, 3]) if p.kind == "stateful" else 0])
+        if p.kind == "initonly":
+            p.files[rng.randrange(nfiles)][3] = 1
         for fi in range(nfiles):
             nonblank = [q for q, b in per_file_imps[fi] if not b and not isinstance(q, str)]
             for v in p.files[fi][2]:
-                intra = [w for w in range(p.nvars) if rank[w] < rank[v] and rng.random() < 0.45]
-                cross = [(q, rng.randrange(q.nvars)) for q in nonblank if rng.random() < 0.6]
+                intra = [w for w in p.pub if rank[w] < rank[v] and rng.random() < 0.45]
+                cross = [(q, rng.choice(q.pub)) for q in nonblank if q.pub and rng.random() < 0.6]
                 p.vdeps[v] = (intra, cross, rng.random() < 0.3)
         seen = []
         for fn, fimps, vs, ni in p.files:
@@ -117,8 +143,11 @@ def gen_program(seed, mode, npk=None):
                     src += ["import " + s for s in specs[k:]] + [""]
                 else:
                     src += ["import (", *["\t" + s for s in specs], ")", ""]
-            if fi == 0:
+            if fi == 0 and p.nvars:
                 src += ["func f(name string, deps ...int) int {", "\tprintln(name)", "\treturn len(deps) + 1", "}", ""]
+            if fi == 0 and p is not mainp:
+                src += ["// what a facade offers: functions, a type, a constant", "const Version = %d" % len(p.name), "",
+                        "type Handle struct{ N int }", "", "func Probe() int { return Version }", ""]
             used = set()
             for v in vs:
                 intra, cross, via = p.vdeps[v]
@@ -132,7 +161,7 @@ def gen_program(seed, mode, npk=None):
                 for q, w in cross:
                     args.append("%s.V%d" % (q.name, w))
                     used.add(q.name)
-                src += ['var V%d = f("%s.V%d"%s)' % (v, p.name, v, "".join(", " + a for a in args)), ""]
+                src += ['var %s = f("%s.V%d"%s)' % ("_" if v in p.blank else "V%d" % v, p.name, v, "".join(", " + a for a in args)), ""]
             for k in range(ni):
                 body = ['\tprintln("%s.init#%d")' % (p.name, initno)]
                 initno += 1
@@ -149,7 +178,7 @@ def gen_program(seed, mode, npk=None):
                          "runtime": "func gc%d() { runtime.GC() }" % fi}[q]
                     src += [u, ""]
                 elif q.name not in used:
-                    src += ["func use%d_%s() int { return %s.V0 }" % (fi, q.name, q.name), ""]
+                    src += ["func use%d_%s() int { return %s.Probe() }" % (fi, q.name, q.name), ""]
                     used.add(q.name)
             if p is mainp and fi == 0:
                 src += ["func main() {", '\tprintln("main.main")', "}", ""]
@@ -161,7 +190,7 @@ def gen_program(seed, mode, npk=None):
         facts["packages"].append({
             "name": p.name, "path": ("verifprog/" + p.path) if p.path else "verifprog",
             "imports": [ip if ip in STD else "verifprog/" + ip for ip in p.imports],
-            "nvars": p.nvars, "ninits": p.ninits,
+            "nvars": p.nvars, "ninits": p.ninits, "kind": p.kind, "blank_vars": sorted(p.blank),
             "vdeps": [sorted(set(p.vdeps[v][0])) for v in range(p.nvars)],
             "nfiles": len(p.files),
         })
